@@ -346,3 +346,27 @@ def call_of_expr(e):
     if e is not None and e.k == "call" and len(e.a) > 2:
         return e.a[2]
     return None
+
+
+def result_edges(fn, cs, through=("Result::map_err", "Result::map", "Option::ok_or_else", "Option::ok_or")):
+    """Like try_edges, but follows the call's result through error-mapping adaptors (`.map_err(..)?`).
+    -> (switch_bb, continue_bb, break_bb) or None"""
+    cur = cs
+    for _ in range(4):
+        ts = anchor.try_switch_of(fn, cur)
+        if ts and ts[1] is not None:
+            return ts
+        nxt = None
+        for c in fn.calls:
+            if c.short in through and c.args and isinstance(c.args[0], list) and c.args[0][0] == cur.dest[0] and len(cur.dest) == 1:
+                nxt = c
+                break
+        if nxt is None:
+            return None
+        cur = nxt
+    return None
+
+
+def ok_edge2(fn, cs):
+    ts = result_edges(fn, cs)
+    return ts[1] if ts else None
